@@ -24,7 +24,8 @@ import c13_puppet
 import vlib
 
 LINE_OF = {1: "P", 2: "G", 3: "L", 9: "N"}
-ORDER = {"P": 1, "G": 2, "L": 4, "F": 7, "I": 8, "exit": 9}       # program order of the locations
+ORDER = {"P": 1, "G": 2, "L": 4, "F": 7, "I": 8, "A": 9, "B": 10, "exit": 11}       # program order of the locations
+LOG_TAG = {"A": "W", "B": "W"}      # a logpoint's message belongs to the breakpoint, not to the place
 RUN_CMDS = ("configurationDone", "continue", "restart")
 DEFECTS = ("kindless", "all", "rfilter", "bareident", "insnchk")
 
@@ -56,8 +57,9 @@ def to_dap(entry, pup):
     if cmd == "setFunctionBreakpoints":
         keys = sorted(k for k, _ in arg)
         o = dict((k, v) for k, v in arg)
-        names = {"fin": "fin", "nosuch": "c13_no_such_function"}
-        return {"cmd": cmd, "args": {"breakpoints": [dict(name=names[k], **opt_fields(o[k], "F")) for k in keys]}}, keys
+        names = {"fin": "fin", "nosuch": "c13_no_such_function", "work": "c13work"}
+        tag = {"fin": "F", "nosuch": "F", "work": "W"}     # one message per breakpoint: both places of `work` log W
+        return {"cmd": cmd, "args": {"breakpoints": [dict(name=names[k], **opt_fields(o[k], tag[k])) for k in keys]}}, keys
     if cmd == "setInstructionBreakpoints":
         keys = sorted(k for k, _ in arg)
         o = dict((k, v) for k, v in arg)
@@ -70,7 +72,7 @@ def to_dap(entry, pup):
         return {"cmd": cmd, "args": {"breakpoints": [{"dataId": ids[k], "accessType": "write"} for k in keys]}}, keys
     if cmd in RUN_CMDS:
         stop = entry["ref"]["stop"]
-        names = {"P": "P", "G": "G", "L": "L", "F": "F", "I": "I"}
+        names = {k: k for k in ("P", "G", "L", "F", "I", "A", "B")}
         expect = "exit" if stop == "exit" else pup["marks"].get(names.get(stop))
         return {"cmd": cmd, "args": ({"threadId": 0} if cmd == "continue" else {}), "run": True, "expect": expect,
                 "peek": pup["iter_addr"]}, []
@@ -82,7 +84,7 @@ def model_obs(o, keys):
     if "ver" in o:
         d = dict((k, v) for k, v in o["ver"])
         return {"ver": [d[k] for k in keys]}
-    return {"outs": list(o["outs"]), "stop": o["stop"], "it": o.get("it")}
+    return {"outs": [LOG_TAG.get(x, x) for x in o["outs"]], "stop": o["stop"], "it": o.get("it")}
 
 
 # ------------------------------------------------------------------------------------------------
@@ -248,8 +250,8 @@ def judge(beh, out, pup):
     if out["end"] != "ok":
         return ({"cls": "session_" + out["end"].split(":")[0], "action": "end", "step": len(beh), "expected": "ok",
                  "actual": out["end"], "cause": "unexplained", "script": script}, info)
-    if out.get("stdout") and any(l != "acc=222" for l in out["stdout"].split()):
-        return ({"cls": "program_output_changed", "action": "end", "step": len(beh), "expected": "acc=222",
+    if out.get("stdout") and any(l != c13_puppet.EXPECT_STDOUT.strip() for l in out["stdout"].split()):
+        return ({"cls": "program_output_changed", "action": "end", "step": len(beh), "expected": c13_puppet.EXPECT_STDOUT.strip(),
                  "actual": out["stdout"], "cause": "unexplained", "script": script}, info)
     # the real run followed the reference: does the as-written model still describe the code?
     if "asw" not in alive and "asw_b" not in alive:
@@ -258,7 +260,7 @@ def judge(beh, out, pup):
 
 
 def _core(o):
-    d = {k: v for k, v in o.items() if k != "nopt"}
+    d = {k: v for k, v in o.items() if k not in ("nopt", "ngone")}
     if d.get("stop") in ("exit", "error", "phantom"):
         d.pop("it", None)
     return d
@@ -270,7 +272,7 @@ def is_clean(beh):
 
 def option_arrivals(beh):
     """TLC's count of arrivals the reference decided through an option (selection guidance only)."""
-    return sum(e["ref"].get("nopt", 0) for e in beh)
+    return sum(e["ref"].get("nopt", 0) + e["ref"].get("ngone", 0) for e in beh)
 
 
 def shape(beh):
@@ -507,7 +509,7 @@ def run(rep, tier, replay):
                          expected=r["expected"], actual=r["actual"], script=r["script"], behaviour=b)
     if skipped:
         vlib.log(f"[replay] {skipped} session(s) did not finish inside their budget: skipped, not judged")
-    if len(done) - skipped < min(T["min_sessions"], len(chosen)) or skipped > max(3, len(done) // 5):
+    if len(done) - skipped < min(T["min_sessions"], len(chosen)) or skipped > max(3, len(done) // 2):
         raise vlib.ToolError(f"{skipped} of {len(done)} sessions did not finish inside their budget")
     if drift:
         vlib.log(f"MODEL-DRIFT: {len(drift)} session(s) conform to the reference although the as-written model "
@@ -524,7 +526,7 @@ def run(rep, tier, replay):
         "states": rE.distinct, "transitions": rE.generated, "depth": rE.depth,
         "exhaustive": True,
         "exhaustive_runs": e_results,
-        "constants": {"Lines": 3, "Exec": "P G G' L L L F I", "generation_MaxReq": 6},
+        "constants": {"Lines": 3, "Exec": "P G G' L L L F I A B", "generation_MaxReq": 6},
         "as_written_model_violates": asw_violates,
         "behaviours_generated": len(raw), "behaviours_distinct": len(behs),
         "traces_validated_against_impl": len(done) - skipped, "sessions_selected": len(chosen),
